@@ -859,9 +859,13 @@ def explore_parallel(harness, workers=None, seed=0, solver_timeout_ms=120000, ti
     fatal = None
     stop = False
     try:
+        import random as _random
+        rng = _random.Random(seed)
+        shuffle = bool(getattr(harness, "partial_ok", False))
         while pending or outstanding:
             while pending and outstanding < 4 * workers and not stop:
-                tasks.put(pending.pop())
+                # budgeted (partial) explorations pick prefixes pseudo-randomly (seeded) to spread over the tree
+                tasks.put(pending.pop(rng.randrange(len(pending)) if shuffle else -1))
                 outstanding += 1
             if stop and not outstanding:
                 break
